@@ -10,6 +10,7 @@ D. drivers one_pop..five_pops with T <= one time step: scalar parameters vs the 
    (influx term), every unit density.
 """
 import itertools
+import json
 from fractions import Fraction
 
 import numpy as np
@@ -280,7 +281,12 @@ def case_driver(col, p):
         hk, gk = hs[k], gammas[k]
         maxVM = max(0.25 / nus[k], sm, abs(gk) * 2 * max(abs(hk + (1 - 2 * hk) * 0.5) * 0.25, abs(hk + (1 - 2 * hk) * 0.25) * 0.1875))
         dts.append(tf / maxVM)
-    T = min(T, 0.9 * min(dts))
+    multistep = bool(p.get('multistep'))
+    if multistep:
+        # several steps: the constant-parameter and the time-dependent drivers must size their steps by the same rule and agree throughout
+        T = 3.5 * min(dts)
+    else:
+        T = min(T, 0.9 * min(dts))
     old = (Integration.timescale_factor, Integration.use_delj_trick)
     Integration.timescale_factor = tf
     Integration.use_delj_trick = bool(delj)
@@ -317,8 +323,8 @@ def case_driver(col, p):
             e[j] = 1.0
             inputs.append(('unit%d' % j, e.reshape(shape)))
         for name, phi0 in inputs:
-            ref = _ref_step(phi0, xx, d, T, nus, mig, gammas, hs, theta0, delj, beta=beta if d == 1 else None)
-            scale = max(1.0, np.abs(ref).max())
+            ref = _ref_step(phi0, xx, d, T, nus, mig, gammas, hs, theta0, delj, beta=beta if d == 1 else None) if not multistep else None
+            scale = max(1.0, np.abs(ref).max()) if ref is not None else max(1.0, float(np.abs(phi0).max()))
             outs = {}
             for vname, kws in variants.items():
                 try:
@@ -328,6 +334,8 @@ def case_driver(col, p):
                     continue
                 col.tick(transitions=1)
                 outs[vname] = out
+                if multistep:
+                    continue
                 err = np.abs(out - ref).max()
                 tol = (1e-9 if delj else 1e-10) * scale
                 if not err <= tol:
@@ -339,14 +347,14 @@ def case_driver(col, p):
                     if vname == 'const':
                         continue
                     e2 = np.abs(out - outs['const']).max()
-                    if not e2 <= 1e-12 * scale:
+                    if not e2 <= (1e-12 if not multistep else 1e-11) * scale:
                         col.violation('C02:driver%d:const_vs_%s' % (d, vname), dict(p, input=name), {'maxdiff': float(e2), 'scale': float(scale)})
                     else:
                         col.observe('driver_const_vs_func', e2 / (1e-12 * scale))
         col.tick(states=len(inputs), traces=len(inputs))
     finally:
         Integration.timescale_factor, Integration.use_delj_trick = old
-    col.distinct('nontrivial', ('driver', d, G, p['grid'], tuple(nus), tuple(gammas), T, delj, tuple(p.get('units', ()))))
+    col.distinct('nontrivial', ('driver', d, G, p['grid'], tuple(nus), tuple(gammas), T, delj, tuple(p.get('units', ())), multistep, json.dumps(p['mig'])[:80]))
 
 
 def case_driver_history(col, p):
@@ -477,6 +485,19 @@ def run(ctx):
                         cases.append(cc)
                 else:
                     cases.append(c)
+    # several steps with every single migration rate in turn limiting the step (strongly asymmetric rates), and with selection limiting it
+    for d, G in ((2, 4), (3, 3)):
+        for (ii, jj) in [(a_, b_) for a_ in range(d) for b_ in range(d) if a_ != b_]:
+            mig = [((a_, b_), 20.0 if (a_, b_) == (ii, jj) else 0.05) for a_ in range(d) for b_ in range(d) if a_ != b_]
+            cases.append(dict(kind='driver', d=d, G=G, seed=ctx.seed, units=(0, min(G ** d, 8)), nus=[4.0, 5.0, 6.0][:d], gammas=[0.0] * d, hs=[0.5] * d,
+                              mig=mig, theta0=1.0, T=1.0, tf=1e-2, delj=0, grid='D', multistep=True))
+        for k_ in range(d):
+            gam = [0.0] * d
+            gam[k_] = 30.0
+            cases.append(dict(kind='driver', d=d, G=G, seed=ctx.seed, units=(0, min(G ** d, 8)), nus=[4.0, 5.0, 6.0][:d], gammas=gam, hs=[0.2, 0.8, 0.4][:d],
+                              mig=[], theta0=1.0, T=1.0, tf=1e-2, delj=0, grid='D', multistep=True))
+    cases.append(dict(kind='driver', d=1, G=6, seed=ctx.seed, units=(0, 6), nus=[4.0], gammas=[30.0], hs=[0.2], mig=[], theta0=1.0, T=1.0, tf=1e-2, delj=0, grid='D',
+                      multistep=True, beta=1.0))
     for d, G in ((1, 6), (2, 5), (3, 4)):
         cases.append({'kind': 'driver_history', 'd': d, 'G': G, 'seed': ctx.seed})
     from mc.evidence import Collector
